@@ -43,6 +43,11 @@ Verdict(o) ==
        [] o.k = "panic" -> <<"MISMATCH", "panic">>
        [] o.k = "crash" -> <<"MISMATCH", "crash">>
        [] o.r = "write_lit" -> LitVerdict(o)
+       [] o.r \in {"rec_methods", "rec_methods_val"} ->
+            IF o.k # "ok" THEN <<"MISMATCH", "arg-not-delivered">>
+            ELSE IF o.script # RecScript THEN <<"MISMATCH", "args-differ">>
+            ELSE IF Canon(o.back) # RecBack(o.r) THEN <<"MISMATCH", "go-field-differs">>
+            ELSE <<"OK", "">>
        [] o.k = "rejected" -> IF rej THEN <<"OK", "">>
                               ELSE IF o.r = "method_arg" THEN <<"MISMATCH", "arg-not-delivered">>
                               ELSE <<"SOFT", "soft-rejected">>
